@@ -346,10 +346,16 @@ def _linear_map(ctx: Context, idx, mod: str, forward_name: str, creator_name: st
                           f"vector-Jacobian product with respect to `{target}`: " + "; ".join(why), construct=norm(call)[:160])
         # which local name receives this product
         for a in ast.walk(inner):
-            if isinstance(a, ast.Assign) and a.value is call and len(a.targets) == 1 and isinstance(a.targets[0], ast.Name):
+            if isinstance(a, ast.Assign) and any(y is call for y in ast.walk(a.value)) and len(a.targets) == 1 and isinstance(a.targets[0], ast.Name):
                 produced[a.targets[0].id] = target
-            elif isinstance(a, ast.Call) and isinstance(a.func, ast.Attribute) and a.func.attr == "append" and a.args and a.args[0] is call \
-                    and isinstance(a.func.value, ast.Name):
+            elif isinstance(a, ast.AugAssign) and any(y is call for y in ast.walk(a.value)):
+                b_ = a.target
+                while isinstance(b_, (ast.Subscript, ast.Attribute)):
+                    b_ = b_.value
+                if isinstance(b_, ast.Name):
+                    produced[b_.id] = target
+            elif isinstance(a, ast.Call) and isinstance(a.func, ast.Attribute) and a.func.attr == "append" and a.args \
+                    and any(y is call for y in ast.walk(a.args[0])) and isinstance(a.func.value, ast.Name):
                 produced[a.func.value.id] = target
     # (b') the forward map scatters its result through the index lists (`new[indices] = M @ x[indices]`), so the cotangent of x, which is
     #      collected block by block, must be put back in the order of the state vector on every path: the statement that builds it is
